@@ -540,6 +540,22 @@ func C19(c *vk.Ctx) {
 			add(full)
 		}
 	}
+	// every single fault under every mode: a value is judged wherever it stands, also in a section the mode does not use
+	for _, m := range cfgDomains["mode"] {
+		for f := range cfgDomains {
+			if f == "list" || f == "mode" {
+				continue
+			}
+			full := baseCfg()
+			full.Mode = m
+			add(setField(full, f, "invalid"))
+		}
+		for _, u := range []string{"crl", "cdp", "ocsp"} {
+			full := baseCfg()
+			full.Mode, full.Unknown = m, u
+			add(full)
+		}
+	}
 	// modes that need no CRL configuration at all
 	for _, m := range []string{"ocsp_only", "disabled", "crl_only", "absent"} {
 		add(cfgRec{Mode: m, CrlCfg: false, OcspCfg: false, Unknown: "none"})
